@@ -93,6 +93,49 @@ def _laws_body(letter, a, o, up):
     return True
 
 
+def ob_d(letter: int, alt: int, o1: int, o2: int, iv: int, up: bool) -> bool:
+    """Histories on ONE pitch object: transpose, move it to another octave / name through the public setters, transpose
+    again - every answer must be the one a freshly built pitch gives (nothing may be remembered from the first call)."""
+    assume(0 <= letter < 7 and -2 <= alt <= 2 and 0 <= o1 <= 8 and 0 <= o2 <= 8 and 0 <= iv < NI)
+    if not ctx.thorough():
+        assume((o1 == 2 or o1 == 4 or o1 == 5) and (o2 == 2 or o2 == 4 or o2 == 5))
+    return _d_body(choose(letter, 7), choose(alt + 2, 5) - 2, choose(o1, 9), choose(o2, 9), choose(iv, NI), bool(up))
+
+
+@native
+def _d_body(letter, alt, o1, o2, iv, up):
+    name = INAMES[iv]
+    raw = kp.IntervalsByName.get(name)
+    if raw is None:
+        return True
+    d, s = ISIZE[iv]
+    p = pm.AgnosticPitch(rp.agnostic_name(letter, alt), o1)
+
+    def expect(L, A, O):
+        L2, A2, O2 = rp.transpose(L, A, O, d, s, up)
+        return (rp.agnostic_name(L2, A2), O2) if -2 <= A2 <= 2 else None
+
+    def got(pitch):
+        try:
+            r = pm.AgnosticPitch.to_transposed(pitch, raw, _dir(up))
+            return (r.name, r.octave)
+        except KeyError:
+            return 'KeyError'
+    for step, (L, A, O) in enumerate(((letter, alt, o1), (letter, alt, o2), ((letter + 2) % 7, -alt, o2))):
+        if step == 1:
+            p.octave = O
+        elif step == 2:
+            p.name = rp.agnostic_name(L, A)
+        e = expect(L, A, O)
+        g = got(p)
+        if e is not None:
+            check(g == e, f'one pitch object, step {step}: {rp.agnostic_name(L, A)}{O} {name} {_dir(up)} -> {g}, model {e}')
+        fresh = got(pm.AgnosticPitch(rp.agnostic_name(L, A), O))
+        check(g == fresh, f'one pitch object, step {step}: {g}, a freshly built {rp.agnostic_name(L, A)}{O} gives {fresh}')
+        check(p.get_chroma() == pm.AgnosticPitch(rp.agnostic_name(L, A), O).get_chroma(), f'get_chroma() of the re-used object differs from a fresh one at step {step}')
+    return True
+
+
 # ------------------------------------------------------------------ table sanity on the live objects
 def fn_tables(dummy: int = 0) -> bool:
     check(sorted(kp.AVAILABLE_INTERVALS) == INAMES, f'AVAILABLE_INTERVALS differs from the 40 derived names: '
@@ -282,6 +325,11 @@ OBLIGATIONS = [
        symbolic='-', enumerated='letter, alteration, octave, interval, direction selectors (each path one concrete call)',
        bounds={'quick': '7 letters x 5 alterations x octaves {0,3,4,8} x 40 intervals x 2 directions = 11 200',
                'thorough': '7 x 5 x octaves 0..8 x 40 x 2 = 25 200'}, describe=_desc_b),
+    Ob(id='C09.d', fn=ob_d, title='histories on one pitch object (octave / name reassigned between transpositions)',
+       shard_of=lambda letter, alt, o1, o2, iv, up: iv, shards={'quick': 16, 'thorough': 16}, budget_s={'quick': 170, 'thorough': 1800},
+       witnesses=[{'letter': 0, 'alt': 0, 'o1': 4, 'o2': 5, 'iv': 20, 'up': True}], min_confirmed=2000,
+       enumerated='letter, alteration, two octaves, interval, direction',
+       bounds={'quick': '7 x 5 x octave pairs from {2,4,5} x 40 x 2', 'thorough': '7 x 5 x 9 x 9 x 40 x 2'}),
     Ob(id='C09.c', fn=ob_laws, title='identity, octave and fourth+fifth laws through the public API',
        shard_of=lambda letter, alt, octave, up: letter, shards={'quick': 7, 'thorough': 7},
        budget_s={'quick': 120, 'thorough': 300},
